@@ -23,6 +23,7 @@ const (
 )
 
 func c11(c *Ctx) {
+	c11everyTaskRegisters(c)
 	r := c.R
 	c11recorded(c)
 	r.Decides("an eviction call is dominated by: pod not yet handled in this round, pod not already evicted, task target not yet met")
